@@ -97,7 +97,7 @@ def run(prog, ctx):
             if render(a) == "&fe":
                 fe = pn[idx]
         for lhs, rhs, st, kind in query.stores(h):
-            l = lhs.strip()
+            l = lhs.resolve()
             if l.k == "ArraySubscriptExpr" and render(l.children[0]) == "*%s" % fe and l.j.get("ct") == "struct file_entry":
                 sites.append((h, call, st, l))
     charges = {"base": [], "override": []}
@@ -371,13 +371,18 @@ def run(prog, ctx):
     n6 = 0
     for h, call in helpers:
         for lhs, rhs, st, kind in query.stores(h):
-            l = lhs.strip()
+            l = lhs.resolve()
             if l.k == "MemberExpr" and l.j.get("member") == "value" and "(*" in render(l) and rhs is not None:
                 n6 += 1
                 roots = set()
                 for x in rhs.walk():
                     if x.k == "DeclRefExpr" and x.j.get("dk") == "param" and x.j.get("ct", "").endswith("econf_file *"):
                         roots.add(x.j["name"])
+                txt6 = render(rhs)
+                for pn6 in h.param_names():
+                    if re.search(r"(^|[^\w])%s->" % re.escape(pn6), txt6):
+                        roots.add(pn6)
+                roots = set(r6 for r6 in roots if h.param(r6) is not None and (h.param(r6).get("ct") or "").endswith("econf_file *"))
                 roles = set(input_role(m, call, h, r) for r in roots)
                 ok, why = ma.is_fresh_expr(h, rhs)
                 if roles == {"override"} and ok:
@@ -392,6 +397,10 @@ def run(prog, ctx):
         for c in h.calls("cpy_file_entry"):
             a1 = c.call_args()[1]
             roots = set(x.j["name"] for x in a1.walk() if x.k == "DeclRefExpr" and x.j.get("dk") == "param")
+            t1 = render(a1)
+            for pn6 in h.param_names():
+                if re.search(r"(^|[^\w])%s->" % re.escape(pn6), t1):
+                    roots.add(pn6)
             roles = set(input_role(m, call, h, r) for r in roots if r in h.param_names()) - {None}
             if len(roles) != 1:
                 ctx.inconclusive("M6", "%s: source of a copied entry" % h.name, c.where, "roots %s" % sorted(roots))
